@@ -39,6 +39,9 @@ type PodOpts struct {
 	NumDevices    string // gpu-fraction-num-devices annotation
 	InitContainer string // named init container that receives the fraction
 	Claim         string // ResourceClaim name (DRA)
+	// ClaimShared: the claim is already allocated and reserved for ANOTHER (running) pod when the target
+	// arrives - a shared claim; the target's reservation is added to / removed from a non-empty list
+	ClaimShared bool
 }
 
 // Pod builds a pending, unscheduled pod the way it leaves the REAL admission webhook mutation
@@ -87,6 +90,18 @@ func Claim(name string) *resourceapi.ResourceClaim {
 	return &resourceapi.ResourceClaim{ObjectMeta: metav1.ObjectMeta{Name: name, Namespace: NS, UID: types.UID("uid-" + name)},
 		Spec: resourceapi.ResourceClaimSpec{Devices: resourceapi.DeviceClaim{Requests: []resourceapi.DeviceRequest{{Name: "gpu",
 			Exactly: &resourceapi.ExactDeviceRequest{DeviceClassName: "gpu.nvidia.com", AllocationMode: resourceapi.DeviceAllocationModeExactCount, Count: 1}}}}}}
+}
+
+// OtherClaimConsumer is the pod a shared claim is already reserved for.
+const OtherClaimConsumer = "other-consumer"
+
+// SharedClaim builds a ResourceClaim that is allocated on node and reserved for OtherClaimConsumer.
+func SharedClaim(name, node string) *resourceapi.ResourceClaim {
+	c := Claim(name)
+	c.Status.Allocation = &resourceapi.AllocationResult{Devices: resourceapi.DeviceAllocationResult{Results: []resourceapi.DeviceRequestAllocationResult{
+		{Request: "gpu", Driver: "gpu.nvidia.com", Pool: node, Device: "gpu-0"}}}}
+	c.Status.ReservedFor = []resourceapi.ResourceClaimConsumerReference{{Resource: "pods", Name: OtherClaimConsumer, UID: types.UID("uid-" + OtherClaimConsumer)}}
+	return c
 }
 
 // BindRequest builds the object the scheduler's createBindRequest produces (BackoffLimit nil unless given).
